@@ -11,7 +11,7 @@ def paint_run(c, tier):
     c.add_tlc(r, "feature stacks")
     beh = list(r.behaviours)
     if not quick:
-        sim = tlc.run("Paint.tla", "Paint_sim.cfg", workers=8, timeout=1200, simulate=4000, depth=5, seed=c.seed)
+        sim = tlc.run("Paint.tla", "Paint_sim.cfg", workers=8, timeout=1200, simulate=25, depth=5, seed=c.seed)
         c.add_tlc(sim, "feature stacks of 3 and 4 (simulation)")
         beh += sim.behaviours
     beh = list(dict.fromkeys(beh))
